@@ -147,7 +147,10 @@ def secidxLoop (wantIndex : Bool) : Nat → Cfg → List (Nat × Nat) → Option
           | some (ii, s) =>
             let name1 := name.drop q.2
             let seps := (name1.takeWhile (· == c_pipe)).length
-            if wantIndex && seps > 0 && (name1.drop seps).isEmpty then ⟨none, q.1, []⟩
+            -- a step ends at a separator or at the end of the path, not in the middle of a word: after a quoted
+            -- title nothing but `|` may follow (fix F44: `sec='a'b`, `sec='a'=` resolved)
+            if !name1.isEmpty && seps == 0 then ⟨none, q.1, [.noSuchOption]⟩
+            else if wantIndex && seps > 0 && (name1.drop seps).isEmpty then ⟨none, q.1, []⟩
             else
               secidxLoop wantIndex fuel s (steps ++ [(oi, ii)]) (some ⟨steps, oi⟩) q.1 (name1.drop seps)
 
